@@ -1,4 +1,5 @@
 import BumpVerif.Proofs.BoxOps
+import BumpVerif.Gen.BoxImpls
 /-! # C17 — `boxed::Box` owns its value like std's `Box`, without owning memory
 
 Theorems about the ownership machine of `Model/Box.lean` (the functions of `src/boxed.rs` written
@@ -8,10 +9,13 @@ downcast targets.  The Box parts of C15 (dropped exactly once; `into_raw`, `leak
 never double-drop) and C16 (a panicking destructor inside a boxed-slice drop: no double drop) are
 the theorems `never_dropped_twice`, `transfers_run_no_destructor`, `slice_drop_with_panicking_destructor`.
 
-Not proved here, sampled by the differential run against `std::boxed::Box`: that the
-comparison / hash / format / iterate / poll / `AsRef` / `Borrow` impls return what the pointee's
-return (in the model they do by definition, see `delegation_is_definitional`), and that the
-model's step sequences are the ones the source executes.
+The delegation clause (comparison / hash / format / iterate / poll / `AsRef` / `Borrow` impls return
+what the pointee's return): in the model they do by definition (`delegation_is_definitional`); that
+the *source* has that form is re-read on every run by `tools/extract_box.py`, which regenerates
+`Gen/BoxImpls.lean` — one row per method of those impls, with whether its body is literally a
+forward to the pointee — and `delegating_impls_forward` below is the obligation that every row
+says so.  The side-by-side run against `std::boxed::Box` samples the results themselves.  That the
+model's step sequences are the ones the source executes is the correspondence run's job.
 -/
 namespace Bump.C17
 open Bump.Bx
@@ -198,6 +202,17 @@ theorem delegation_is_definitional (z : Bool) (w : W) (a b : Nat) (p q : Cell)
     (effOf z (.cmp a b) w).2 = cmpText (cmpList [p.val] [q.val]) := by
   simp [effOf, ha, hb]
 
+/-- **The source delegates.** Every method of every impl through which a `Box` must behave as its
+pointee (39 methods of 17 trait impls, regenerated from `src/boxed.rs` on every run) is literally a
+forward to the pointee: same trait, same method, every parameter passed through unchanged and in
+order, result returned as is.  A `Box` therefore compares / hashes / formats / iterates / polls
+exactly as `**self` does, whatever the pointee's impls are. -/
+theorem delegating_impls_forward : ∀ e ∈ Gen.boxImpls, e.forwards = true := by decide
+
+/-- the table is the one the property needs: all seventeen impls are present with their methods -/
+theorem delegating_impls_complete : Gen.boxImplCount = 39 ∧ Gen.boxImpls.length = Gen.boxImplCount ∧
+    Gen.boxImplForwarding = Gen.boxImplCount := by decide
+
 /-- the hypotheses above are satisfiable: a one-variable program reaching a `Box` -/
 example : (step false ⟨⟨448, 1, 16⟩, 1⟩ (.new 0 5 0) (W.init 1)).slots[0]? = some (.box 0 ⟨1, 5⟩) := by decide
 example : Reachable false (step false ⟨⟨448, 1, 16⟩, 1⟩ (.new 0 5 0) (W.init 1)) := ⟨1, [(⟨⟨448, 1, 16⟩, 1⟩, .new 0 5 0)], rfl⟩
@@ -222,3 +237,5 @@ end Bump.C17
 #print axioms Bump.C17.only_drop_drops
 #print axioms Bump.C17.end_drops_owned_only
 #print axioms Bump.C17.delegation_is_definitional
+#print axioms Bump.C17.delegating_impls_forward
+#print axioms Bump.C17.delegating_impls_complete
